@@ -715,7 +715,10 @@ class Forcing(BaseForce):
         self, X: ParticleArray, Y: ParticleArray, Z: ParticleArray, name: str
     ) -> Field:
         """Dummy function for backwards compatibility of IBMs"""
-        return self.variables[name]
+        values = self.variables[name]
+        if len(values) != len(X):  # Dead particles were removed after update()
+            values = self.modules["state"][name]
+        return values
 
 
 # ------------------------
